@@ -619,6 +619,10 @@ func writeEvidence(prop, tier string, seed uint64, r *engine.Result, violations,
 	if err := os.WriteFile(filepath.Join(evidenceDir(), prop+".json"), b, 0o644); err != nil {
 		broken("cannot write evidence: %v", err)
 	}
+	// a copy per tier, so that the last quick and the last thorough run can be read side by side
+	// (<id>.json is always the most recent run, whatever its tier)
+	os.MkdirAll(filepath.Join(evidenceDir(), "by_tier"), 0o755)
+	os.WriteFile(filepath.Join(evidenceDir(), "by_tier", prop+"."+tier+".json"), b, 0o644)
 }
 
 func max64(a, b int64) int64 {
